@@ -122,7 +122,7 @@ def check_c11(pid, tier, replay):
     vc.log("[C11] %d TLC-generated walks %.0fs" % (len(beh), time.time() - t0))
     # legs B and C
     sweeps = gen_level.sweep_histories([0, 1, 64, 100, 126, 127] if q else [0, 1, 2, 32, 63, 64, 65, 100, 126, 127], variants=2 if q else 4)
-    bound = gen_level.boundary_histories()
+    bound = gen_level.boundary_histories() + gen_level.port_histories()
     ex = list(gen_level.exhaustive(2, algs=(4, 7) if q else (0, 4, 5, 7)))
     if not q:
         ex += list(gen_level.exhaustive(3, vms=(1, 3), algs=(4,)))
